@@ -125,9 +125,33 @@ class LenClass:
             return self.of(n.args[0].args[0])
         if n.op == "Tuple" and len(n.args) == 1:
             return self.count_of(n.args[0])
+        # number of True entries of a mask = size of the selection by that mask
+        m = None
+        if n.op == "Call" and n.args and n.args[0].op == "Ext" and n.args[0].attr in (
+                "numpy.count_nonzero", "numpy.sum") and len(n.args) == 2:
+            m = n.args[1]
+        elif n.op == "MCall" and n.attr[0] == "sum" and len(n.args) == 1:
+            m = n.args[0]
+        if m is not None and self.is_masklike(m):
+            cm = self.mask_parent(m)
+            return ("SEL", cm, self.g.vn(m)) if cm is not None else None
         if n.op == "Phi":
             a, b = self.count_of(n.args[1]), self.count_of(n.args[2])
             return a if a == b else None
+        return None
+
+    def mask_parent(self, m: Node, depth=0):
+        """event population a boolean mask ranges over: the class of the mask, else of the per-event array it
+        compares (a comparison with a table value of unknown class still ranges over the events)"""
+        c = self.of(m)
+        if is_def(c):
+            return c
+        if depth > 6:
+            return None
+        if m.op in ("Compare", "BinOp", "UnaryOp", "BoolOp"):
+            found = [x for x in (self.mask_parent(a, depth + 1) for a in m.args) if x is not None]
+            if found and all(f == found[0] for f in found):
+                return found[0]
         return None
 
     def _of(self, n: Node) -> tuple:
